@@ -38,6 +38,7 @@ type Ctx struct {
 	parseCache []*parseSite
 	nilSafeMemo map[string]bool
 	abw map[fieldKey]bool
+	focus []string
 }
 
 type Floor struct {
@@ -47,7 +48,27 @@ type Floor struct {
 }
 
 func (c *Ctx) add(status, rule, construct, where, detail string) {
+	if c.focus != nil {
+		keep := false
+		for _, f := range c.focus {
+			if strings.Contains(rule, f) {
+				keep = true
+			}
+		}
+		if !keep {
+			return
+		}
+	}
 	c.Obls = append(c.Obls, Obligation{Rule: rule, Construct: construct, Status: status, Where: where, Detail: detail})
+}
+
+// only runs fn while recording only the obligations whose rule name contains one of the given fragments:
+// a property that depends on one aspect of a shared rule family claims (and alarms on) that aspect only.
+func (c *Ctx) only(fragments []string, fn func()) {
+	prev := c.focus
+	c.focus = fragments
+	defer func() { c.focus = prev }()
+	fn()
 }
 func (c *Ctx) ok(rule, construct, where, detail string)   { c.add("discharged", rule, construct, where, detail) }
 func (c *Ctx) fail(rule, construct, where, detail string) { c.add("violated", rule, construct, where, detail) }
